@@ -1,5 +1,5 @@
 (* C05/Proofs_add.v — Log.add_config: acceptance criterion, effects of acceptance, nothing is sent. *)
-From CF Require Import C05.Model.
+Require Import CF.C05.Model.
 From Coq Require Import ZifyBool.
 Open Scope Z_scope.
 Ltac Zify.zify_post_hook ::= Z.to_euclidean_division_equations.
